@@ -294,6 +294,172 @@ Theorem c01_call_operators_are_renamed_consistently : forall cx ecx f ti tb,
   nf_op cx ecx (W_Call f) = WOp (W_Call (rfn cx ecx f)) /\ nf_op cx ecx (W_CallIndirect ti tb) = WOp (W_CallIndirect (rty cx ecx ti) (rtb cx ecx tb)).
 Proof. intros cx ecx f ti tb. exact (conj (nf_op_call cx ecx f) (nf_op_call_indirect cx ecx ti tb)). Qed.
 
+(* ---- END TO END on the module-level models (Model/SemModOf.v, Proofs/SemModEnd.v): for a section stream with the validator's guarantees (no imports, at
+   most one table filled by one active function-index segment at offset 0) whose functions are the bodies of a module m, parseM then emitM yield a stream
+   whose functions are those of m' = out_cmod: every body is the renamed normal form of the input body at the index rf the emission order gives it, rf is
+   a bijection undone by the function slot map read off the emit-time map, the table is renamed by rf, signatures are preserved - and therefore running
+   m' on the renumbered slots equals running m, for every entry function, arguments, call depth and fuel.  Premises that stay visible: the local slot
+   maps / frames of each function (follows from C19 / C03's local-map theorems; not yet connected), well-formedness of the bodies in the parse context,
+   operators of the live code decodable with indices in range and memarg offsets below 2^32 (the recorded finding), fewer than 2^32 - 1 types. *)
+From WV Require Import Model.SemModOf Proofs.SemModEnd.
+Section EndToEnd.
+Local Open Scope nat_scope.
+Theorem c01_parse_then_emit_preserves_whole_module_behaviour :
+  forall (cf : ModuleM.config) (ver : ModuleM.str) (w : ModuleM.wmod) (s : ParseM.pst)
+           (ilen : IR.wins -> BinNums.N) (e : EmitM.emitted) (m : SemMod.cmod),
+         ParseTotal.valid_stream w ->
+         ParseM.parseM cf ver w = ParseM.POk s ->
+         EmitM.emitM (ParseM.ps_m s) ilen nil = Common.Ok e ->
+         stream_has_cmod w m ->
+         BinNat.N.le (BinNat.N.of_nat (List.length (ParseM.types_list (ParseM.ps_m s))))
+           (BinNums.Npos
+              (BinNums.xI
+                 (BinNums.xI
+                    (BinNums.xI
+                       (BinNums.xI
+                          (BinNums.xI
+                             (BinNums.xI
+                                (BinNums.xI
+                                   (BinNums.xI
+                                      (BinNums.xI
+                                         (BinNums.xI
+                                            (BinNums.xI
+                                               (BinNums.xI
+                                                  (BinNums.xI
+                                                     (BinNums.xI
+                                                        (BinNums.xI
+                                                           (BinNums.xI
+                                                              (BinNums.xI
+                                                                 (BinNums.xI
+                                                                    (BinNums.xI
+                                                                       (BinNums.xI
+                                                                          (BinNums.xI
+                                                                             (BinNums.xI
+                                                                                (BinNums.xI
+                                                                                  (BinNums.xI
+                                                                                  (BinNums.xI
+                                                                                  (BinNums.xI
+                                                                                  (BinNums.xI
+                                                                                  (BinNums.xI
+                                                                                  (BinNums.xI
+                                                                                  (BinNums.xI
+                                                                                  (BinNums.xI BinNums.xH)))))))))))))))))))))))))))))))) ->
+         (forall (i : nat) (d : SemMod.fdef),
+          List.nth_error (SemMod.cm_funcs m) i = Some d ->
+          ParseSpec.wfl (ModFix15.cx_of s (BinNat.N.of_nat i)) 1 (fd_body d)) ->
+         (forall (i : nat) (d : SemMod.fdef) (o : Ops.wop),
+          List.nth_error (SemMod.cm_funcs m) i = Some d ->
+          List.In o (Sem.ops_of (SemMod.live (fd_body d))) -> op_ok_end s o) ->
+         exists (m' : SemMod.cmod) (rf : BinNums.N -> BinNums.N),
+           m' = out_cmod s e ilen m /\
+           rf = rf_of (EmitM.em_x2i e) /\
+           stream_has_cmod_ops (EmitM.em_secs e) m' /\
+           (forall i : BinNums.N,
+            BinNat.N.to_nat i < List.length (SemMod.cm_funcs m) ->
+            BinNat.N.to_nat (rf i) < List.length (SemMod.cm_funcs m)) /\
+           (forall i i' : BinNums.N,
+            BinNat.N.to_nat i < List.length (SemMod.cm_funcs m) ->
+            BinNat.N.to_nat i' < List.length (SemMod.cm_funcs m) -> rf i = rf i' -> i = i') /\
+           (forall j : BinNums.N,
+            BinNat.N.to_nat j < List.length (SemMod.cm_funcs m) ->
+            exists i : BinNums.N, BinNat.N.to_nat i < List.length (SemMod.cm_funcs m) /\ rf i = j) /\
+           (forall i : BinNums.N, fslot_of (EmitM.em_x2i e) (rf i) = i) /\
+           SemMod.cm_table m' = List.map (option_map rf) (SemMod.cm_table m) /\
+           (forall (i : nat) (ti : BinNums.N) (ls : list Ops.valty) (body : list ParseSpec.rt),
+            List.nth_error (SemMod.cm_funcs m) i = Some (ti, ls, body) ->
+            exists (ti' : BinNums.N) (ls' : list Ops.valty),
+              SemMod.nth_optN (rf (BinNat.N.of_nat i)) (SemMod.cm_funcs m') =
+              Some
+                (ti', ls',
+                 SemMod.out_body (ModFix15.cx_of s (BinNat.N.of_nat i)) (ecxo_of e ilen (BinNat.N.of_nat i))
+                   body) /\ SemMod.nth_optN ti' (SemMod.cm_tys m') = SemMod.nth_optN ti (SemMod.cm_tys m)) /\
+           (forall lslot' : BinNums.N -> BinNums.N -> BinNums.N,
+            let E :=
+              SemMod.env_of m (fun _ : BinNums.N => SemMod.idN) SemMod.idN SemMod.idN SemMod.idN SemMod.idN in
+            let E' := SemMod.env_of m' lslot' (fslot_of (EmitM.em_x2i e)) SemMod.idN SemMod.idN SemMod.idN in
+            (forall (i : nat) (ti : BinNums.N) (ls : list Ops.valty) (body : list ParseSpec.rt)
+               (ti' : BinNums.N) (ls' : list Ops.valty) (b' : list ParseSpec.rt),
+             List.nth_error (SemMod.cm_funcs m) i = Some (ti, ls, body) ->
+             SemMod.nth_optN (rf (BinNat.N.of_nat i)) (SemMod.cm_funcs m') = Some (ti', ls', b') ->
+             (forall j : BinNums.N,
+              List.In j (SemMod.locals_used (SemMod.live body)) ->
+              lslot' (BinNat.N.of_nat i)
+                (SemCore.rl (ModFix15.cx_of s (BinNat.N.of_nat i)) (ecxo_of e ilen (BinNat.N.of_nat i)) j) = j) /\
+             SemMod.frames_agree E E' (BinNat.N.of_nat i) ti ls ls' body) ->
+            forall (k fuel : nat) (f : BinNums.N) (args : list SemCore.val) (s0 : SemCore.st),
+            SemMod.run_mod E' k fuel f args s0 = SemMod.run_mod E k fuel f args s0).
+Proof. exact sem_roundtrip_end_to_end. Qed.
+
+Theorem c01_emitted_function_body_is_the_renamed_normal_form :
+  forall (cf : ModuleM.config) (ver : ModuleM.str) (w : ModuleM.wmod) (s : ParseM.pst)
+           (ilen : IR.wins -> BinNums.N) (e : EmitM.emitted),
+         ParseTotal.valid_stream w ->
+         ParseM.parseM cf ver w = ParseM.POk s ->
+         EmitM.emitM (ParseM.ps_m s) ilen nil = Common.Ok e ->
+         List.flat_map Structure.imports_of w = nil ->
+         List.length (List.flat_map ModFix.funcs_of w) = List.length (List.flat_map ModFix.code_of w) ->
+         forall (k : nat) (b : ModuleM.wbody),
+         List.nth_error (List.flat_map ModFix.code_of w) k = Some b ->
+         exists
+           (l : list ParseSpec.rt) (eloc j : BinNums.N) (ef : EmitM.emitted_fn) (f : ModuleM.mfunc) 
+         (lf : ModuleM.mlocalfunc),
+           ModuleM.wb_ops b = (ParseSpec.flat_list l ++ (IR.WEnd, eloc) :: nil)%list /\
+           ParseSpec.wfl (ModFix15.cx_of s (BinNat.N.of_nat k)) 1 l /\
+           ModuleM.aget (ModuleM.m_funcs (ParseM.ps_m s)) (BinNat.N.of_nat k) = Some f /\
+           ModuleM.fn_kind f = ModuleM.FK_Local lf /\
+           EmitM.get_idx (EmitM.em_x2i e) Ops.S_func (BinNat.N.of_nat k) = Common.Ok j /\
+           BinNat.N.to_nat j < List.length (List.flat_map ModFix.code_of w) /\
+           List.nth_error (EmitM.em_fns e) (BinNat.N.to_nat j) = Some ef /\
+           List.nth_error (List.flat_map ModFix.code_of (EmitM.em_secs e)) (BinNat.N.to_nat j) =
+           Some (EmitM.ef_body ef) /\
+           EmitM.emit_function (ParseM.ps_m s) (EmitM.em_x2i e) ilen (BinNat.N.of_nat k) lf = Common.Ok ef /\
+           (let cx := ModFix15.cx_of s (BinNat.N.of_nat k) in
+            let ecx := ModFix15.ecx_of e (EmitM.ef_lmap ef) ilen in
+            (exists (pos : list BinNums.N) (eloc' : BinNums.N),
+               ModuleM.wb_ops (EmitM.ef_body ef) =
+               (ParseSpec.flat_list (ModFix10.reloc (SemMod.out_body cx ecx l) pos) ++ (IR.WEnd, eloc') :: nil)%list) /\
+            List.map fst (ModuleM.wb_ops (EmitM.ef_body ef)) =
+            (List.map fst (ParseSpec.flat_list (SemMod.out_body cx ecx l)) ++ IR.WEnd :: nil)%list).
+Proof. exact end_function_body. Qed.
+
+Theorem c01_function_renumbering_injective_on_the_stream :
+  forall (cf : ModuleM.config) (ver : ModuleM.str) (w : ModuleM.wmod) (s : ParseM.pst)
+           (ilen : IR.wins -> BinNums.N) (e : EmitM.emitted),
+         ParseM.parseM cf ver w = ParseM.POk s ->
+         EmitM.emitM (ParseM.ps_m s) ilen nil = Common.Ok e ->
+         List.flat_map Structure.imports_of w = nil ->
+         forall i i' : BinNums.N,
+         BinNat.N.to_nat i < List.length (List.flat_map ModFix.funcs_of w) ->
+         BinNat.N.to_nat i' < List.length (List.flat_map ModFix.funcs_of w) ->
+         rf_of (EmitM.em_x2i e) i = rf_of (EmitM.em_x2i e) i' -> i = i'.
+Proof. exact end_rf_injective. Qed.
+
+Theorem c01_function_renumbering_onto_on_the_stream :
+  forall (cf : ModuleM.config) (ver : ModuleM.str) (w : ModuleM.wmod) (s : ParseM.pst)
+           (ilen : IR.wins -> BinNums.N) (e : EmitM.emitted),
+         ParseM.parseM cf ver w = ParseM.POk s ->
+         EmitM.emitM (ParseM.ps_m s) ilen nil = Common.Ok e ->
+         List.flat_map Structure.imports_of w = nil ->
+         forall j : BinNums.N,
+         BinNat.N.to_nat j < List.length (List.flat_map ModFix.funcs_of w) ->
+         exists i : BinNums.N,
+           BinNat.N.to_nat i < List.length (List.flat_map ModFix.funcs_of w) /\ rf_of (EmitM.em_x2i e) i = j.
+Proof. exact end_rf_onto. Qed.
+
+Theorem c01_table_renamed_with_the_functions :
+  forall (cf : ModuleM.config) (ver : ModuleM.str) (w : ModuleM.wmod) (s : ParseM.pst)
+           (ilen : IR.wins -> BinNums.N) (e : EmitM.emitted) (tbl : list (option BinNums.N)),
+         ParseTotal.valid_stream w ->
+         ParseM.parseM cf ver w = ParseM.POk s ->
+         EmitM.emitM (ParseM.ps_m s) ilen nil = Common.Ok e ->
+         table_of_elems (List.flat_map Structure.elems_of w) = Some tbl ->
+         table_of_elems (List.flat_map Structure.elems_of (EmitM.em_secs e)) =
+         Some (List.map (option_map (rf_of (EmitM.em_x2i e))) tbl).
+Proof. exact end_table. Qed.
+
+
+End EndToEnd.
+
 Print Assumptions c01_normal_form_is_equivalent.
 Print Assumptions c01_equivalence_on_the_renamed_operators.
 Print Assumptions c01_divergence_preserved.
@@ -316,3 +482,8 @@ Print Assumptions c01_truncated_offset_changes_behaviour.
 Print Assumptions c01_encoder_total.
 Print Assumptions c01_whole_module_round_trip_preserves_behaviour.
 Print Assumptions c01_call_operators_are_renamed_consistently.
+Print Assumptions c01_parse_then_emit_preserves_whole_module_behaviour.
+Print Assumptions c01_emitted_function_body_is_the_renamed_normal_form.
+Print Assumptions c01_function_renumbering_injective_on_the_stream.
+Print Assumptions c01_function_renumbering_onto_on_the_stream.
+Print Assumptions c01_table_renamed_with_the_functions.
